@@ -208,7 +208,7 @@ def aabbFromPoints3 (a b c : V3 α) : AABB α :=
   let area := mx.Sub mn
   NewAABB ((area.Scale (lit 1 2)).Add mn) area
 
-/-- `scopedTri.PointInSide` (modeling/tri.go:33-56) -/
+/-- `scopedTri.PointInSide` (modeling/tri.go:33-60, as fixed by /repo f8880ab: all three pairs of normals agree) -/
 def triPointInSide (pa pb pc p : V3 α) : Bool :=
   let a := pa.Sub p
   let b := pb.Sub p
@@ -218,7 +218,7 @@ def triPointInSide (pa pb pc p : V3 α) : Bool :=
   if u.Dot v < ((0 : Nat) : α) then false
   else
     let w := a.Cross b
-    decide (((0 : Nat) : α) ≤ u.Dot w)
+    decide (((0 : Nat) : α) ≤ u.Dot w) && decide (((0 : Nat) : α) ≤ v.Dot w)
 
 /-- `scopedTri.ClosestPoint` (modeling/tri.go:58-86) -/
 def triClosestPoint (pa pb pc p : V3 α) : V3 α :=
